@@ -195,6 +195,7 @@ class Analyzer:
         self.entry_zero = entry_zero or ()      # path prefixes holding zero at function entry
         self.widen_delay = widen_delay
         self.escalate = True
+        self.narrow_passes = 2
         self.unroll = unroll                    # iteration partitioning: the first `unroll` iterations of a loop are kept apart
         self.loop_entry = {}                    # loop header -> env joined over the loop's entry edges
         self.acc_c = {}                         # accumulate statement -> largest increment seen
@@ -345,6 +346,7 @@ class Analyzer:
         around s).  Returns {stmt eid: (var id, [loop headers inner..outer], outermost header)}."""
         F = self.F
         self.acc_headers, self.acc_keys, self.ind = set(), set(), {}
+        self.addr_taken = self._addr_taken()
         if not self.loops:
             return {}
         # innermost loop of each block
@@ -455,6 +457,19 @@ class Analyzer:
             for h in chain:
                 self.acc_headers.add(h)
                 self.acc_keys.add(f'v{self.ind[h][0]}')
+        return out
+
+    def _addr_taken(self):
+        F = self.F
+        out = set()
+        for n in F.ex:
+            nd = F.ex[n]
+            if nd['k'] == 'un' and nd['op'] == '&':
+                l = F.ex[F.strip_casts(nd['c'][0])]
+                while l['k'] in ('sub', 'member') and l.get('c'):
+                    l = F.ex[F.strip_casts(l['c'][0])]
+                if l['k'] == 'ref' and l['decl']['kind'] in ('var', 'param'):
+                    out.add(l['decl']['id'])
         return out
 
     def _invariant_in(self, h, e, mods, addr):
@@ -731,6 +746,9 @@ class Analyzer:
     def store(self, env, key, val, e=None, weak=False):
         if key is None:
             return
+        cse = env.get('$cse')
+        if cse and any(key in d for (_, d) in cse.values()):
+            env['$cse'] = {t: (v_, d) for t, (v_, d) in cse.items() if key not in d}
         eq = env.get('$eq')
         if eq and (key in eq or any(k_.startswith(key + '[') or k_.startswith(key + '->') for k_ in eq)):
             eq = {a: b for a, b in eq.items() if a != key and b != key and not a.startswith(key + '[') and not b.startswith(key + '[')
@@ -850,6 +868,9 @@ class Analyzer:
         z = env.get('$uninit')
         if z:
             env['$uninit'] = frozenset(x for x in z if not x.startswith(p))
+        cse = env.get('$cse')
+        if cse and any(p in d for (_, d) in cse.values()):
+            env['$cse'] = {t: (v_, d) for t, (v_, d) in cse.items() if p not in d}
         eq = env.get('$eq')
         if eq and any(a.startswith(p) or b.startswith(p) for a, b in eq.items()):
             env['$eq'] = {a: b for a, b in eq.items() if not a.startswith(p) and not b.startswith(p)}
@@ -879,7 +900,12 @@ class Analyzer:
         if k == 'int':
             return K(nd['v'])
         if k in ('flt', 'str'):
-            return V(nn=True) if k == 'str' else TOP
+            if k == 'str':
+                return V(nn=True)
+            fv = nd.get('v')
+            if isinstance(fv, (int, float)) and fv == fv and abs(fv) != INF:
+                return V(fv, fv)
+            return TOP
         if k == 'ref':
             d = nd['decl']
             if d['kind'] == 'fn':
@@ -909,7 +935,11 @@ class Analyzer:
             v = self.ev(env, c[0])
             r = int_type_range(nd.get('t', ''))
             if nd.get('ck') in ('FloatingToIntegral',):
-                return V(*(r or (-INF, INF)))
+                # truncation toward zero of a bounded floating value
+                rr = r or (-INF, INF)
+                if v.lo != -INF and v.hi != INF and not v.is_bottom() and rr[0] <= v.lo and v.hi <= rr[1]:
+                    return V(math.trunc(v.lo), math.trunc(v.hi))
+                return V(*rr)
             return self.convert(v, r)
         if k == 'un':
             op = nd['op']
@@ -948,6 +978,12 @@ class Analyzer:
             tr = int_type_range(nd.get('t', ''))
             if tr and nd.get('t', '').startswith('unsigned') and (r.lo < 0 or r.hi > tr[1]):
                 r = V(tr[0], tr[1])
+            cse = env.get('$cse')
+            if cse and op in ('+', '-', '*'):
+                hit = cse.get(self.F.s(e))
+                if hit is not None:
+                    hv = hit[0]
+                    r = r.copy(lo=max(r.lo, hv.lo), hi=min(r.hi, hv.hi), lt=r.lt | hv.lt, le=(r.le | hv.le) - (r.lt | hv.lt))
             return r
         if k == 'assign':
             op = nd['op']
@@ -1150,6 +1186,12 @@ class Analyzer:
                     else:
                         cands.append(x * y)
             return V(min(cands), max(cands))
+        if op == '/' and nd is not None and nd.get('t') in ('float', 'double', 'long double'):
+            if b.lo > 0 or b.hi < 0:
+                c_ = [x / y for x in (a.lo, a.hi) for y in (b.lo, b.hi) if x not in (INF, -INF) and y not in (INF, -INF)]
+                if len(c_) == 4:
+                    return V(min(c_), max(c_))
+            return TOP
         if op == '/':
             if b.lo <= 0 <= b.hi:
                 # divisor may be zero (obligation checked elsewhere); result unknown-ish
@@ -1387,12 +1429,15 @@ class Analyzer:
                     op = '<'
                 elif sa is not None and sa in vb.le:
                     op = '>'
-            na = self.restrict(va, op, vb, sb)
-            nb = self.restrict(vb, {'<': '>', '<=': '>=', '>': '<', '>=': '<=', '==': '==', '!=': '!='}[op], va, sa)
+            isf = any(self.ex[x].get('t') in ('float', 'double', 'long double') for x in (a, b))
+            na = self.restrict(va, op, vb, sb, isf)
+            nb = self.restrict(vb, {'<': '>', '<=': '>=', '>': '<', '>=': '<=', '==': '==', '!=': '!='}[op], va, sa, isf)
             if na.is_bottom() or nb.is_bottom():
                 return None
             self.assign_refined(env, a, va, na)
             self.assign_refined(env, b, vb, nb)
+            for x_, nx_ in ((a, na), (b, nb)):
+                self._remember_expr(env, x_, nx_)
             if op == '==':
                 # two locations known equal: a refinement of one refines the other from here on
                 ka = self.path(self.F.strip_casts(a), env) if self.ex[self.F.strip_casts(a)]['k'] in ('ref', 'member') else None
@@ -1479,6 +1524,34 @@ class Analyzer:
             return self.peek(env, nd['c'][1])
         return TOP
 
+    def _pure_locals(self, e):
+        """local variable keys of an arithmetic expression over locals/constants only, or None"""
+        out = set()
+        for n in self.F.walk(e):
+            nd = self.ex[n]
+            k = nd['k']
+            if k in ('int', 'cast') or (k == 'bin' and nd['op'] in ('+', '-', '*')):
+                continue
+            if k == 'ref' and nd['decl']['kind'] in ('var', 'param') and 'extent' not in nd['decl'] and nd['decl']['id'] not in self.alias:
+                out.add(f'v{nd["decl"]["id"]}')
+                continue
+            return None
+        return out
+
+    def _remember_expr(self, env, e, val):
+        """a branch refined the value of the arithmetic expression e (`if(j+k+off<N)`): an identical expression evaluated
+        later, before any of its variables is assigned, has that value"""
+        e = self.F.strip_casts(e)
+        nd = self.ex[e]
+        if nd['k'] != 'bin' or nd['op'] not in ('+', '-', '*'):
+            return
+        deps = self._pure_locals(e)
+        if not deps:
+            return
+        cse = dict(env.get('$cse') or {})
+        cse[self.F.s(e)] = (val, frozenset(deps))
+        env['$cse'] = cse
+
     def sym_of(self, e, env):
         """symbolic name usable as a bound: local variable or struct field"""
         e = self.F.strip_casts(e)
@@ -1512,9 +1585,17 @@ class Analyzer:
             return a_le_b and b_le_a and not a_lt_b and not b_lt_a
         return False
 
-    def restrict(self, v, op, w, wsym):
-        """v restricted by  v op w"""
+    def restrict(self, v, op, w, wsym, isfloat=False):
+        """v restricted by  v op w  (for floating operands a strict comparison only gives the non-strict bound)"""
         lo, hi, lt, le = v.lo, v.hi, v.lt, v.le
+        if isfloat:
+            if op in ('<', '<='):
+                hi = min(hi, w.hi)
+            elif op in ('>', '>='):
+                lo = max(lo, w.lo)
+            elif op == '==':
+                lo, hi = max(lo, w.lo), min(hi, w.hi)
+            return v.copy(lo=lo, hi=hi)
         if op == '<':
             hi = min(hi, w.hi - 1)
             lt = lt | w.lt | w.le | ({wsym} if wsym else set())
@@ -1723,6 +1804,10 @@ class Analyzer:
                 ea, eb = a.get(k) or {}, b.get(k) or {}
                 out[k] = {x: y for x, y in ea.items() if eb.get(x) == y}
                 continue
+            if k == '$cse':
+                ca, cb = a.get(k) or {}, b.get(k) or {}
+                out[k] = {t: (join(ca[t][0], cb[t][0]), ca[t][1]) for t in ca if t in cb}
+                continue
             if k == '$sym':
                 sa, sb = a.get(k) or {}, b.get(k) or {}
                 out[k] = {x: join(sa[x], sb[x]) for x in sa if x in sb}
@@ -1755,6 +1840,10 @@ class Analyzer:
                     if growth.get(k, 0) <= self.widen_delay:
                         out[k] = join(va, vb, la, lb)
                         continue
+                    if growth.get(k, 0) > self.widen_delay + 60:
+                        # this very location has climbed the threshold ladder long enough: straight to the type range
+                        out[k] = widen(va, vb, [])
+                        continue
                 w = widen(va, vb, self.thresholds)
                 if vb.hi > va.hi and w.hi > vb.hi:
                     # the grown value is still below a symbolic bound with a known finite upper limit: go there at once
@@ -1775,14 +1864,20 @@ class Analyzer:
                 out[k] = join(va, vb, la, lb)
         return out
 
-    @staticmethod
-    def _key_assigned(k, assigned):
-        return assigned is None or k in assigned or any(k.startswith(a) for a in assigned)
+    def _key_assigned(self, k, assigned):
+        if assigned is None or k in assigned or any(k.startswith(a) for a in assigned if not a.startswith('$')):
+            return True
+        if '$mem' in assigned:
+            # everything except plain locals that nobody can reach through a pointer
+            if k.startswith('v') and k[1:].isdigit() and int(k[1:]) not in self.addr_taken:
+                return False
+            return True
+        return False
 
     def env_leq(self, a, b):
         """a ⊑ b ?"""
         for k in set(a) | set(b):
-            if k in ('$tmp', '$rd', '$sym', '$eq'):
+            if k in ('$tmp', '$rd', '$sym', '$eq', '$cse'):
                 continue
             if k in ('$zero', '$uninit'):
                 if not set(b.get(k, ())) <= set(a.get(k, ())):
@@ -1873,7 +1968,7 @@ class Analyzer:
             b = min(work, key=lambda x: idx.get(x, 10 ** 9))
             work.discard(b)
             n += 1
-            if n > 4000:
+            if n > 40000:
                 raise AnalysisBroken(f'K4 did not converge on {F.name}')
             outs = self.flow_block(b, self.block_in.get(b, {}))
             for s, states in outs.items():
@@ -1894,16 +1989,22 @@ class Analyzer:
                         if s not in assigned_cache:
                             assigned_cache[s] = self.loop_assigned(s)
                         asg = assigned_cache[s]
-                        if self.escalate and cnt > self.widen_delay + 40:
+                        # a call in the loop can change memory, but not a local scalar whose address is never taken:
+                        # such a local is widened only if the loop itself assigns it
+                        if '$call' in asg:
+                            asg = set(asg) | {'$mem'}
+                        if self.escalate and cnt > self.widen_delay + 400:
                             # escalation: the per-key delay and the assigned-set filter are dropped; past 20 visits
                             # thresholds are dropped too (straight to the type range)
                             saved = self.thresholds
-                            if cnt > self.widen_delay + 60:
+                            if cnt > self.widen_delay + 600:
                                 self.thresholds = []
-                            new = self.join_env(old, env, wide=True, assigned=None, growth=None)
+                            # (the filter "a local nobody assigns in this loop is not widened" stays: it cannot grow here)
+                            keep = {a for a in asg if a.startswith('v') and a[1:].isdigit()} | {'$mem'}
+                            new = self.join_env(old, env, wide=True, assigned=keep if '$mem' in asg else None, growth=None)
                             self.thresholds = saved
                         else:
-                            new = self.join_env(old, env, wide=True, assigned=None if '$call' in asg else asg,
+                            new = self.join_env(old, env, wide=True, assigned=asg,
                                                 growth=growth.setdefault((s, pk), {}))
                     else:
                         new = self.join_env(old, env)
@@ -1913,7 +2014,7 @@ class Analyzer:
                     work.add(s)
         self.iterations = n
         # narrowing: two descending passes
-        for _ in range(2):
+        for _ in range(self.narrow_passes):
             for b in order:
                 if b == F.entry:
                     continue
